@@ -103,9 +103,10 @@ class Deadlock(Exception):
 
 
 class ChoiceLoop(asyncio.BaseEventLoop):
-    def __init__(self, chooser, max_steps=100000):
+    def __init__(self, chooser, max_steps=100000, idle=None):
         super().__init__()
         self._chooser = chooser
+        self._idle = idle
         self._vtime = 0.0
         self.steps = 0
         self.max_steps = max_steps
@@ -131,6 +132,8 @@ class ChoiceLoop(asyncio.BaseEventLoop):
         live = [h for h in ready if not h._cancelled]
         ready.clear()
         if not live:
+            if self._idle is not None and self._idle():
+                return          # an external event (signal, user action) was delivered while the system was quiescent
             raise Deadlock('nothing runnable')
         idx = self._chooser(len(live)) if len(live) > 1 else 0
         h = live.pop(idx)
@@ -141,8 +144,8 @@ class ChoiceLoop(asyncio.BaseEventLoop):
         h._run()
 
 
-def run_choice(main_factory, chooser, max_steps=100000):
-    loop = ChoiceLoop(chooser, max_steps)
+def run_choice(main_factory, chooser, max_steps=100000, idle=None):
+    loop = ChoiceLoop(chooser, max_steps, idle)
     asyncio.set_event_loop(loop)
     try:
         return loop.run_until_complete(main_factory())
